@@ -91,6 +91,21 @@ class Interp:
             self.ctx.assume(z3.InRe(t, smt.PRINTABLE))
         return SStr(t)
 
+    def unique_string_value(self, k):
+        """the single value a string term can take under the current path condition, or None.
+        (a key like f"{word.lower()}_index" where the path fixes word up to letter case); decided by cvc5:
+        one model, then unsatisfiability of `term != model value`"""
+        fresh = z3.String("unique!probe")
+        asserts = list(self.ctx.pc) + [fresh == k.t]
+        st, out, _ = smt.run_cvc5(asserts, 5)
+        if st != "sat":
+            return None
+        val = smt.parse_model(out).get("unique!probe")
+        if val is None:
+            return None
+        st2, _, _ = smt.run_cvc5(list(self.ctx.pc) + [k.t != z3.StringVal(val)], 5, want_model=False)
+        return val if st2 == "unsat" else None
+
     def alphabet(self, t):
         """over-approximation (exact per declared pattern) of the characters a string term can contain, or None"""
         if self.charsets is None:
@@ -327,6 +342,11 @@ class Interp:
                 raise pyraise("TypeError", "'in <string>' requires string as left operand")
             if isinstance(cont, str) and isinstance(item, str):
                 return item in cont
+            if isinstance(item, str) and isinstance(cont, SStr):
+                # a literal with a character outside the alphabet of the subject cannot occur in it (exact)
+                alpha = self.alphabet(cont.t)
+                if alpha is not None and any(c not in alpha for c in item):
+                    return False
             return SBool(z3.Contains(strterm(cont), strterm(item)))
         if isinstance(cont, MDict):
             if is_sym(item):
@@ -649,6 +669,12 @@ class Interp:
                 self.assign(tt, vv, env)
         elif isinstance(t, ast.Subscript):
             o = self.ev(t.value, env)
+            if isinstance(t.slice, ast.Slice):
+                sl = t.slice
+                if sl.lower is None and sl.upper is None and sl.step is None and isinstance(o, list):
+                    o[:] = list(self.iter_values(v))      # x[:] = ... replaces the contents in place
+                    return
+                raise Unsupported("slice assignment other than x[:] = ... on a list")
             k = self.ev(t.slice, env)
             self.setitem(o, k, v)
         elif isinstance(t, ast.Attribute):
@@ -665,7 +691,10 @@ class Interp:
             o.maybe.pop(k, None)
         if isinstance(o, dict):
             if is_sym(k):
-                raise Unsupported("store under symbolic dict key")
+                kk = self.unique_string_value(k) if isinstance(k, SStr) else None
+                if kk is None:
+                    raise Unsupported("store under symbolic dict key")
+                k = kk
             o[k] = v
         elif isinstance(o, list):
             if is_sym(k):
